@@ -11,6 +11,7 @@ import ast
 
 from .. import flow
 from ..astutil import (
+    atom_polarity,
     body_walk,
     call_name,
     call_recv,
@@ -160,7 +161,11 @@ def r1_1(ctx):
     disp = p.func("mbox.Mailbox._dispatch_or_pend_notifications")
     shape = False
     for n in body_walk(disp.node):
-        if isinstance(n, ast.If) and any(isinstance(a, ast.Attribute) and a.attr == "idling" for a in ast.walk(n.test)) and not isinstance(n.test, ast.UnaryOp):
+        if isinstance(n, ast.If) and any(isinstance(a, ast.Attribute) and a.attr == "idling" for a in ast.walk(n.test)):
+            # the arm taken when the session *is* idling (the test may be written either way round)
+            pos = atom_polarity(n.test, lambda a: isinstance(a, ast.Attribute) and a.attr == "idling")
+            idle_arm, other_arm = (n.body, n.orelse) if pos else (n.orelse, n.body)
+            n = ast.If(test=n.test, body=idle_arm, orelse=other_arm)
             push_in_true = any(isinstance(c, ast.Call) and is_push_call(c) for s in n.body for c in ast.walk(s))
             # queueing is lossless: the whole list is appended as it is (EXPUNGE lines are positional - two identical lines are
             # two removals; filtering, de-duplicating or re-ordering changes what the session will replay)
